@@ -224,6 +224,12 @@ func main() {
 		runMutate(repo, verif, pos)
 	case "mutasm":
 		runMutAsm(repo, verif, pos)
+	case "neutral":
+		runNeutral(repo, verif, pos)
+	case "orientgen":
+		noOrient = true
+		c := NewCtx("adhoc", tier, repo, verif)
+		fmt.Print(orientGenSource(c.G()))
 	case "rolesgen":
 		c := NewCtx("adhoc", tier, repo, verif)
 		noRoles = true
